@@ -26,6 +26,7 @@ type tfile struct {
 	Bad       int    // index of the failing statement, -1 = none
 	Stmts     []int  // statement ids
 	Ckpt      bool   // checkpoint file (-- atlas:checkpoint)
+	Texts     map[int]string // statement index -> SQL text instead of the journal INSERT (C13 fk stage)
 }
 
 type step struct {
@@ -63,7 +64,9 @@ func (f tfile) content() string {
 		b.WriteString("\n")
 	}
 	for i, id := range f.Stmts {
-		if i == f.Bad {
+		if t, ok := f.Texts[i]; ok {
+			b.WriteString(t + ";\n")
+		} else if i == f.Bad {
 			fmt.Fprintf(&b, "INSERT INTO missing VALUES (%d);\n", id)
 		} else {
 			fmt.Fprintf(&b, "INSERT INTO journal VALUES (%d);\n", id)
@@ -292,6 +295,9 @@ func main() {
 		jobs = genC13(w, *tier, &mu)
 	case "c13dry":
 		clirun.Parallel(16, genC13Dry(w, *tier, &mu))
+		return
+	case "c13fk":
+		clirun.Parallel(16, genC13Fk(w, *tier, &mu))
 		return
 	default:
 		os.Exit(2)
